@@ -928,6 +928,22 @@ void* sim_mremap(void* old, size_t olen, size_t nlen, int flags, ...) {
 }
 
 // TBB's own coroutines: keep ASan informed about the stack we continue on.
+// First activation of a coroutine: the entry function is wrapped so that the pending fiber switch is finished.
+static void (*g_co_entry)() = nullptr;
+static void co_tramp(unsigned hi, unsigned lo) {
+#if SIM_ASAN
+    __sanitizer_finish_switch_fiber(nullptr, nullptr, nullptr);
+#endif
+    reinterpret_cast<void (*)(unsigned, unsigned)>(g_co_entry)(hi, lo);
+}
+void sim_makecontext(ucontext_t* ucp, void (*fn)(), int argc, ...) {
+    va_list ap; va_start(ap, argc);
+    unsigned a0 = argc > 0 ? va_arg(ap, unsigned) : 0, a1 = argc > 1 ? va_arg(ap, unsigned) : 0;
+    va_end(ap);
+    if (argc != 2) { fprintf(stderr, "sim_makecontext: unsupported argc %d\n", argc); abort(); }
+    g_co_entry = fn;
+    ::makecontext(ucp, reinterpret_cast<void (*)()>(co_tramp), 2, a0, a1);
+}
 struct CtxStack { const ucontext_t* uc; const void* bottom; size_t size; };
 static CtxStack g_ctxs[512]; static int g_nctx = 0;
 int sim_swapcontext(ucontext_t* from, const ucontext_t* to) {
